@@ -73,6 +73,10 @@ type Case struct {
 	V2Delta   uint64 `json:"v2TimeDelta,omitempty"`
 	V2Genesis uint64 `json:"v2Genesis,omitempty"`
 	StampV2   bool   `json:"stampV2,omitempty"`
+	// CreateOrigin / OpOrigin: anchor origins declared by the create and (for a recover) by the operation; an
+	// out-of-window recover still consumes its commitment whatever origin it names
+	CreateOrigin interface{} `json:"createOrigin,omitempty"`
+	OpOrigin     interface{} `json:"opOrigin,omitempty"`
 }
 
 // delta is the maximum operation time delta that governs the case's operation.
@@ -110,8 +114,11 @@ func replay(raw json.RawMessage) (string, string) {
 func build(c *Case) (string, []*hist.Anchored) {
 	kt := keys.Type(c.KeyType)
 	k := func(i int) *keys.Key { return keys.Get(kt, "c05", i) }
-	cr := hist.NewCreate(hist.CreateSpec{Name: "create", Code: c.Code, Recovery: k(0), Update: k(1), Markers: map[string]interface{}{"c": "0"}})
+	cr := hist.NewCreate(hist.CreateSpec{Name: "create", Code: c.Code, Recovery: k(0), Update: k(1), Markers: map[string]interface{}{"c": "0"}, Opt: hist.Opt{AnchorOrigin: c.CreateOrigin}})
 	spec := hist.SignedSpec{Name: c.Type, Type: c.Type, Suffix: cr.Suffix, Code: c.Code, Markers: map[string]interface{}{"w": "applied"}, Opt: hist.Opt{From: c.From, Until: c.Until}}
+	if c.Type == "recover" {
+		spec.Opt.AnchorOrigin = c.OpOrigin
+	}
 	switch c.Type {
 	case "update":
 		spec.Reveal, spec.NextUpd = k(1), k(2)
@@ -216,7 +223,7 @@ func altConfigs(p Params) []Params {
 }
 
 func TestBoundarySweep(t *testing.T) {
-	ev.Rule(chkSweep, "deterministic sweep: type in {update, recover, deactivate} x window in {(0,0), (a,0), (a,u), (0,u)} x anchoring time in {a-1, a, a+1, e-1, e, e+1} (e = effective until) x maxOperationTimeDelta in 5 pairwise distinct values (none equal to any other parameter) x {base configuration, 5 configurations differing in exactly one unrelated parameter: maxDeltaSize, maxOperationSize, maxOperationHashLength, nonceSize, maxOperationCount} x 2 key types; oracle: per-type effect from the statement's window predicate (via kit/refmodel) and outcome identical across unrelated configurations; non-trivial = anchoring time within 1 of a window boundary or a configuration pair")
+	ev.Rule(chkSweep, "deterministic sweep: type in {update, recover, deactivate} x window in {(0,0), (a,0), (a,u), (0,u)} x anchoring time in {a-1, a, a+1, e-1, e, e+1} (e = effective until) x maxOperationTimeDelta in 5 pairwise distinct values (none equal to any other parameter) x {base configuration, 5 configurations differing in exactly one unrelated parameter: maxDeltaSize, maxOperationSize, maxOperationHashLength, nonceSize, maxOperationCount} x 2 key types; recovers additionally with an anchor origin that differs from the create's (or where the create names none); oracle: per-type effect from the statement's window predicate (via kit/refmodel) and outcome identical across unrelated configurations; non-trivial = anchoring time within 1 of a window boundary or a configuration pair")
 	const a, u = int64(100000), int64(150000)
 	deltas := []uint64{1, 61, 7207, 30011, 86413}
 	item := 0
@@ -252,17 +259,26 @@ func TestBoundarySweep(t *testing.T) {
 							}
 							return o
 						}()...)
-						for _, alt := range cfgs {
-							item++
-							if !ev.Mine(item) {
-								continue
-							}
-							c := &Case{Type: typ, KeyType: int(kt), Code: asm.SHA256, From: w[0], Until: w[1], T: tm, P: p, Alt: alt}
-							kind, sig, msg := evalCase(c)
-							ev.Record(chkSweep, nearBoundary(c), ev.Hash(c), "type:"+typ, fmt.Sprintf("window:from=%v,until=%v", w[0] != 0, w[1] != 0), fmt.Sprintf("in-window:%v", refmodel.InWindow(c.From, c.Until, c.T, delta)))
-							ev.SampleFn(chkSweep, func() interface{} { return c })
-							if kind != "" {
-								ev.Fail(t, chkSweep, kind, sig, c, "%s", msg)
+						origins := [][2]interface{}{{nil, nil}}
+						if typ == "recover" {
+							origins = append(origins, [2]interface{}{"origin-a", "origin-b"}, [2]interface{}{nil, "origin-b"})
+						}
+						for ci, alt := range cfgs {
+							for oi, org := range origins {
+								if oi > 0 && ci > 1 {
+									continue // origin variants under the base configuration and one alternative only
+								}
+								item++
+								if !ev.Mine(item) {
+									continue
+								}
+								c := &Case{Type: typ, KeyType: int(kt), Code: asm.SHA256, From: w[0], Until: w[1], T: tm, P: p, Alt: alt, CreateOrigin: org[0], OpOrigin: org[1]}
+								kind, sig, msg := evalCase(c)
+								ev.Record(chkSweep, nearBoundary(c), ev.Hash(c), "type:"+typ, fmt.Sprintf("window:from=%v,until=%v", w[0] != 0, w[1] != 0), fmt.Sprintf("in-window:%v", refmodel.InWindow(c.From, c.Until, c.T, delta)))
+								ev.SampleFn(chkSweep, func() interface{} { return c })
+								if kind != "" {
+									ev.Fail(t, chkSweep, kind, sig, c, "%s", msg)
+								}
 							}
 						}
 					}
@@ -274,7 +290,7 @@ func TestBoundarySweep(t *testing.T) {
 }
 
 func TestRapidTriples(t *testing.T) {
-	ev.Rule(chkRapid, "rapid: (anchorFrom, anchorUntil, anchoring time) triples drawn around the boundaries (incl. empty windows: anchorUntil before anchorFrom) with drawn maxOperationTimeDelta and drawn unrelated parameters (pairwise distinct), all 5 key types and both hash algorithms; in one case of three a second protocol version with another delta is in force (genesis at or just after the anchoring time) and the operation is stamped with either version - the stamped version's delta governs; same oracle")
+	ev.Rule(chkRapid, "rapid: (anchorFrom, anchorUntil, anchoring time) triples drawn around the boundaries (incl. empty windows: anchorUntil before anchorFrom) with drawn maxOperationTimeDelta and drawn unrelated parameters (pairwise distinct), all 5 key types and both hash algorithms; in one case of three a second protocol version with another delta is in force (genesis at or just after the anchoring time) and the operation is stamped with either version - the stamped version's delta governs; in one case of three create and recover name drawn (equal, different, absent, object-valued) anchor origins; same oracle")
 	ev.Rapid(t, chkRapid, 600, 6000, func(t *rapid.T) {
 		p := baseParams()
 		p.TimeDelta = uint64(rapid.IntRange(1, 200000).Draw(t, "timeDelta"))
@@ -303,6 +319,11 @@ func TestRapidTriples(t *testing.T) {
 		}
 		c := &Case{Type: rapid.SampledFrom(types).Draw(t, "type"), KeyType: int(rapid.SampledFrom(keys.AllTypes).Draw(t, "keyType")),
 			Code: rapid.SampledFrom([]uint64{asm.SHA256, asm.SHA512}).Draw(t, "hash"), From: from, Until: until, T: uint64(tm), P: p}
+		if rapid.IntRange(0, 2).Draw(t, "origins") == 0 {
+			org := []interface{}{nil, "origin-a", "origin-b", map[string]interface{}{"o": "c"}}
+			c.CreateOrigin = rapid.SampledFrom(org).Draw(t, "createOrigin")
+			c.OpOrigin = rapid.SampledFrom(org).Draw(t, "opOrigin")
+		}
 		if rapid.Bool().Draw(t, "withAlt") {
 			alt := rapid.SampledFrom(altConfigs(p)).Draw(t, "alt")
 			c.Alt = &alt
